@@ -20,10 +20,10 @@ func init() {
 		Explain: "structural clauses of the round-trip property, decided on all paths: " +
 			"(a) size caps: every read of a descriptor's content in the registry package (content.FetchAll, content.ReadAll, Fetch on an oras-go storage) is reachable only through `D.Size <= positive constant` on the very descriptor D it reads (per loop iteration inside loops; when D is a parameter of an unexported helper that does not test it, at every call site of the helper); " +
 			"(b) fetch: FetchSignatureBlob succeeds only through the manifest lookup, the blob cap and the fetch of the looked-up descriptor (FetchAll, or a module function that is Fetch + ReadAll on one descriptor), returning that fetch's bytes and that descriptor; the lookup succeeds only for the two manifest media types " +
-			"(tested in the lookup or in a helper that succeeds only through such a test), through the manifest cap, the fetch of the capped descriptor, a decode (inline or in a helper) into the manifest type that belongs to the media type, and exactly one layer/blob, returning element 0 of the decoded list; " +
+			"(tested in the lookup or in a helper that succeeds only through such a test), through the manifest cap, the fetch of the capped descriptor, a decode (inline or in a helper) into the manifest type that belongs to the media type, and exactly one layer/blob, returning element 0 of the decoded list; the blob store is decided on every value the fetcher expression can take (phis, returns of an accessor function); " +
 			"(c) listing: the listing either asks the referrers API for (subject, notation artifact type) or filters predecessors: an element is appended only, per iteration and per media type (on the paths an element of that media type can take, whatever the dispatch looks like), through cap, fetch, decode into a per-iteration fresh target of the right type, " +
-			"non-nil subject, content.Equal(decoded subject, requested descriptor) or its three field comparisons, a test against the notation type of the artifact type the listed descriptor carries, which is the one decoded from the manifest of that iteration; the listed descriptor is a per-iteration copy of the current predecessor whose identity fields nobody writes; failures return no list; " +
-			"(d) push: the blob is pushed (PushBytes, or NewDescriptorFromBytes + Push of a reader over the same bytes) with the caller's media type and bytes, the manifest packed (v1.1, artifact type from the config) with subject, annotations and exactly the pushed blob's descriptor as single layer, the config descriptor being the immutable notation config whose media type is the notation artifact type the listing filters on.",
+			"non-nil subject, content.Equal(decoded subject, requested descriptor) or its three field comparisons, a test against the notation type of the artifact type the listed descriptor carries, which is the one decoded from the manifest of that iteration; the listed descriptor is a per-iteration copy of the current predecessor whose identity fields nobody writes; failures return no list; any stretch of this per-iteration work may stand in module functions whose success is must-pass in the loop (their facts are read with the parameters replaced by the arguments, restricted to the paths the media type allows; the values they hand back — a record, a pointer to one, several results — are followed to the decoded manifest's fields); " +
+			"(d) push: the blob is pushed (PushBytes, NewDescriptorFromBytes + Push of a reader over the same bytes, or a module function that is that upload) with the caller's media type and bytes, the manifest packed (v1.1, artifact type from the config) at the one PackManifest call of PushSignature or of the module functions it calls, with — in PushSignature's terms, parameters replaced by arguments along the call chain — subject, annotations and exactly the pushed blob's descriptor as single layer, the packed descriptor handed up unchanged, the config descriptor being the immutable notation config whose media type is the notation artifact type the listing filters on.",
 		NotCov:  "byte-for-byte equality itself (content addressing of oras-go: FetchAll / ReadAll verify size and digest; PackManifest/PushBytes/Push store what they are given) and the behaviour over push sequences in a real layout; remote referrers API filtering.",
 		Trusted: []string{"go/types, go/ssa", "oras-go content.FetchAll (= Fetch + content.ReadAll) / content.Equal (= size, digest and media type equal) / PackManifest / PushBytes (= content.NewDescriptorFromBytes + Push) / Predecessors", "encoding/json"},
 	})
@@ -206,8 +206,16 @@ func c19Fetch(c *Ctx) {
 	}
 	c.Check(okRet, "fetch/returns-fetched", "the bytes returned are the fetch result and the descriptor returned is the descriptor that was capped and fetched", w.FnPos(F), "")
 	// the fetcher is the target (or its blob store)
-	fd := desc(fsites[0].Src)
-	c.Check(strings.Contains(fd, "param:"+F.Params[0].Name()+".GraphTarget") && !strings.Contains(fd, "Manifests("), "fetch/blob-store", "the blob is fetched from the repository's own target (its blob store for remote repositories)", w.InstrPos(fa), fd)
+	// (decided on the values the fetcher expression can take — c19SourceLeaves —, each of which must be the receiver's
+	// GraphTarget itself or something obtained from it other than its manifest store)
+	srcs := map[string]bool{}
+	okSrc := c19SourceLeaves(w, fsites[0].Src, c19Same, 0, srcs) && len(srcs) > 0
+	for fd := range srcs {
+		if !strings.Contains(fd, "param:"+F.Params[0].Name()+".GraphTarget") || strings.Contains(fd, "Manifests(") {
+			okSrc = false
+		}
+	}
+	c.Check(okSrc, "fetch/blob-store", "the blob is fetched from the repository's own target (its blob store for remote repositories)", w.InstrPos(fa), strings.Join(sortedKeys(srcs), " | "))
 
 	// the lookup
 	c.SeenFn(G.String())
@@ -530,69 +538,119 @@ func c19Referrers(c *Ctx, SR *ssa.Function) {
 			continue
 		}
 		flow := c19NewFlow(fi, loop.Body, cutM, cur.Allocs)
+		// The frames an element of this media type runs through: this function's loop body and the module functions it
+		// must have come through successfully (c19Frame). Each fact below is looked for in every frame; a rendering of
+		// a helper's frame is read with the helper's parameters replaced by the call's arguments.
+		root := &c19Frame{fn: SR, fi: fi, tr: c19Same, cut: cutM, labels: labels, flow: flow}
+		flow.frame = root
+		contra := map[string]bool{}
+		for l := range mtFact("NE", br.mt) {
+			contra[l] = true
+		}
+		for l := range mtFact("EQ", br.other) {
+			contra[l] = true
+		}
+		root.grow(w, lb, contra)
+		frames := root.all()
+		for _, fr := range frames[1:] {
+			c.SeenFn(fr.fn.String())
+			c.Evals++
+		}
+		facts := root.facts()
 		// the decode target of this media type
 		var X *ssa.Alloc
 		var U *ssa.Call
-		for _, ci := range findCalls(SR, "encoding/json.Unmarshal") {
-			cc := ci.(*ssa.Call)
-			if !labelHas(labels, "EQ("+desc(cc)+",nil)") {
-				continue
-			}
-			if mi, ok := cc.Call.Args[1].(*ssa.MakeInterface); ok {
-				if al, ok := mi.X.(*ssa.Alloc); ok && namedOf(al.Type()) == br.typ {
-					X, U = al, cc
+		var FU *c19Frame
+		for _, fr := range frames {
+			for _, ci := range findCalls(fr.fn, "encoding/json.Unmarshal") {
+				cc := ci.(*ssa.Call)
+				if !labelHas(fr.labels, "EQ("+desc(cc)+",nil)") {
+					continue
+				}
+				if mi, ok := cc.Call.Args[1].(*ssa.MakeInterface); ok {
+					if al, ok := mi.X.(*ssa.Alloc); ok && namedOf(al.Type()) == br.typ {
+						X, U, FU = al, cc, fr
+					}
 				}
 			}
 		}
 		capOK := false
 		for _, n := range names {
-			if _, ok := c19Capped(labels, n); ok {
+			if _, ok := c19Capped(facts, n); ok {
 				capOK = true
 			}
 		}
 		// the fetch of the current referrer whose error is checked on the way
 		var fetch *ssa.Call
-		for _, fs := range fetches {
-			if cur.Names[desc(fs.D)] && labelHas(labels, c19ErrNil(fs.Call)) {
-				fetch = fs.Call
+		var FF *c19Frame
+		for _, fr := range frames {
+			fss := fetches
+			if fr != root {
+				fss = c19FetchSites(w, fr.fn)
+			}
+			for _, fs := range fss {
+				if cur.Names[fr.tr(desc(fs.D))] && labelHas(fr.labels, c19ErrNil(fs.Call)) {
+					fetch, FF = fs.Call, fr
+				}
 			}
 		}
-		c.Check(capOK, key+"/cap", "per iteration: the referrer's declared size is capped before it is fetched", w.InstrPos(app), summarizeLabels(labels, 6))
-		c.Check(fetch != nil, key+"/fetch-error", "per iteration: FetchAll(current referrer) err == nil", w.InstrPos(app), summarizeLabels(labels, 6))
+		c.Check(capOK, key+"/cap", "per iteration: the referrer's declared size is capped before it is fetched", w.InstrPos(app), summarizeLabels(facts, 6))
+		c.Check(fetch != nil, key+"/fetch-error", "per iteration: FetchAll(current referrer) err == nil", w.InstrPos(app), summarizeLabels(facts, 6))
 		if X == nil {
-			c.Bad(key+"/decode", "per iteration: the fetched manifest is decoded into "+br.typ+" and the decode error fails the listing", w.InstrPos(app), summarizeLabels(labels, 8))
+			c.Bad(key+"/decode", "per iteration: the fetched manifest is decoded into "+br.typ+" and the decode error fails the listing", w.InstrPos(app), summarizeLabels(facts, 8))
 			continue
 		}
 		xd := desc(X)
-		srcOK := fetch != nil && desc(U.Call.Args[0]) == res(fetch, 0)
-		c.Check(srcOK, key+"/decode", "per iteration: the fetched manifest of the current referrer is decoded into "+br.typ+" and the decode error fails the listing", w.InstrPos(U), "decoded bytes: "+desc(U.Call.Args[0]))
+		srcOK := fetch != nil && FU.tr(desc(U.Call.Args[0])) == FF.tr(res(fetch, 0))
+		c.Check(srcOK, key+"/decode", "per iteration: the fetched manifest of the current referrer is decoded into "+br.typ+" and the decode error fails the listing", w.InstrPos(U), "decoded bytes: "+FU.tr(desc(U.Call.Args[0])))
 		// fresh per iteration
-		fresh := lb[X.Block().Index] && X.Block() != loop.Header
-		if !fresh {
-			// or zeroed in the loop before the decode
-			for _, r := range *X.Referrers() {
-				if st, ok := r.(*ssa.Store); ok && st.Addr == X && lb[st.Block().Index] && st.Block().Dominates(U.Block()) {
-					if k, ok := st.Val.(*ssa.Const); ok && k.Value == nil {
-						fresh = true
+		var fresh bool
+		if FU == root {
+			fresh = lb[X.Block().Index] && X.Block() != loop.Header
+			if !fresh {
+				// or zeroed in the loop before the decode
+				for _, r := range *X.Referrers() {
+					if st, ok := r.(*ssa.Store); ok && st.Addr == X && lb[st.Block().Index] && st.Block().Dominates(U.Block()) {
+						if k, ok := st.Val.(*ssa.Const); ok && k.Value == nil {
+							fresh = true
+						}
 					}
 				}
+			}
+		} else {
+			// a local of a helper called in this iteration is a new variable in every call; inside a loop of the helper it
+			// must be the loop's own
+			fresh = X.Parent() == FU.fn
+			if l := innermostLoop(FU.fn, U.Block()); l != nil {
+				hl := loopBlocks(l.Header)
+				fresh = fresh && hl[X.Block().Index] && X.Block() != l.Header
 			}
 		}
 		c.Check(fresh, key+"/decode-target-fresh", "the decode target is fresh in every iteration (json.Unmarshal keeps fields that the input omits: a reused target leaks the previous referrer's subject and type)", w.InstrPos(X), "the decode target "+xd+" lives across iterations and is not reset")
 		// subject: content.Equal, or its definition spelled out (oras-go content/descriptor.go: Equal(a, b) is
 		// a.Size == b.Size && a.Digest == b.Digest && a.MediaType == b.MediaType) — inline or through a module
-		// predicate, whose three must-pass facts the engine hands up in this frame
-		_, nn := hasLabel(labels, "NE("+xd+".Subject,nil)")
-		eq := labelHas(labels, "T(call:oras/content.Equal("+xd+".Subject,"+dp+"))") || labelHas(labels, "T(call:oras/content.Equal("+dp+","+xd+".Subject))")
-		if !eq {
-			eq = true
-			for _, f := range []string{"MediaType", "Digest", "Size"} {
-				if !labelHas(labels, "EQ("+xd+".Subject."+f+","+dp+"."+f+")") && !labelHas(labels, "EQ("+dp+"."+f+","+xd+".Subject."+f+")") {
-					eq = false
+		// predicate, whose three must-pass facts the engine hands up in this frame. The decoded subject is `X.Subject`
+		// where X lives, and whatever the frames above see of it (c19Spellings): a test on `info.subject` with info the
+		// record a helper built from X is a test on X.Subject.
+		subj := c19Spellings(FU, lb, X, ".Subject")
+		subj[xd+".Subject"] = true
+		nn, eq := false, false
+		for sd := range subj {
+			if labelHas(facts, "NE("+sd+",nil)") {
+				nn = true
+			}
+			e := labelHas(facts, "T(call:oras/content.Equal("+sd+","+dp+"))") || labelHas(facts, "T(call:oras/content.Equal("+dp+","+sd+"))")
+			if !e {
+				e = true
+				for _, f := range []string{"MediaType", "Digest", "Size"} {
+					if !labelHas(facts, "EQ("+sd+"."+f+","+dp+"."+f+")") && !labelHas(facts, "EQ("+dp+"."+f+","+sd+"."+f+")") {
+						e = false
+					}
 				}
 			}
+			eq = eq || e
 		}
-		c.Check(nn && eq, key+"/subject-equality", "per iteration: the decoded subject is non-nil and content.Equal to the requested descriptor (all of media type, digest and size)", w.InstrPos(app), fmt.Sprintf("non-nil=%v equal=%v facts: %s", nn, eq, summarizeLabels(labels, 8)))
+		c.Check(nn && eq, key+"/subject-equality", "per iteration: the decoded subject is non-nil and content.Equal to the requested descriptor (all of media type, digest and size)", w.InstrPos(app), fmt.Sprintf("non-nil=%v equal=%v decoded subject seen as %v; facts: %s", nn, eq, sortedKeys(subj), summarizeLabels(facts, 8)))
 		// artifact type: some test `V == notation type` is passed on every path, and V is what the listed descriptor
 		// carries as its artifact type at the append (the field itself, or the local the field is then filled from)
 		elemAT, okElem := flow.field(node, "ArtifactType", app, 0)
@@ -606,7 +664,7 @@ func c19Referrers(c *Ctx, SR *ssa.Function) {
 				okTest = true
 			}
 		}
-		c.Check(okTest, key+"/artifact-type", "per iteration: the artifact type is the notation signature type", w.InstrPos(app), fmt.Sprintf("compared with the notation type: %v; the listed descriptor carries %s; facts: %s", seen, c19Keys(elemAT), summarizeLabels(labels, 8)))
+		c.Check(okTest, key+"/artifact-type", "per iteration: the artifact type is the notation signature type", w.InstrPos(app), fmt.Sprintf("compared with the notation type: %v; the listed descriptor carries %s; facts: %s", seen, c19Keys(elemAT), summarizeLabels(facts, 8)))
 		// ... and it is the decoded one
 		c.Evals++
 		c.Check(okTest && okElem && c19Only(elemAT, X, br.atField), key+"/artifact-type-origin", "the artifact type compared is the one decoded from this referrer's manifest ("+strings.TrimPrefix(br.atField, ".")+"), set on every path to the append", w.InstrPos(app), fmt.Sprintf("the listed descriptor's artifact type at the append: %s (determined on every path=%v)", c19Keys(elemAT), okElem))
@@ -650,8 +708,9 @@ func c19Push(c *Ctx) {
 	m := Mode{Kind: mErr}
 	s := w.Summarize(P, m)
 	c.Evals += s.States
-	// the envelope upload: oras.PushBytes, or its two steps spelled out (c19BlobPushes)
-	pbs := c19BlobPushes(P)
+	// the envelope upload: oras.PushBytes, its two steps spelled out, or a module function that is that upload
+	// (c19BlobPushes)
+	pbs := c19BlobPushes(w, P)
 	if len(pbs) != 1 {
 		c.Bad("push/blob", "the envelope is pushed once with oras.PushBytes", w.FnPos(P), fmt.Sprintf("%d calls", len(pbs)))
 		return
@@ -681,57 +740,53 @@ func c19Push(c *Ctx) {
 		return
 	}
 	c.Check(desc(pb.MT) == pn(iMT) && desc(pb.Blob) == pn(iBlob), "push/blob", "the blob is pushed with exactly the caller's media type and bytes", w.InstrPos(pb.At), desc(pb.At))
-	var UP *ssa.Function
-	var up *ssa.Call
-	for _, ci := range allCalls(P) {
-		if cc, ok := ci.(*ssa.Call); ok {
-			if g := staticCallee(cc); g != nil && w.IsProductFn(g) {
-				for _, a := range cc.Call.Args {
-					if desc(a) == pb.Desc {
-						UP, up = g, cc
-					}
-				}
-			}
-		}
-	}
-	if UP == nil {
-		c.Bad("push/manifest", "the manifest is built from the pushed blob's descriptor", w.FnPos(P), "no module call receives PushBytes' descriptor")
+	// The place where the manifest is packed: the one oras.PackManifest call of PushSignature itself or of the module
+	// functions it calls (c19PackSites). Whether the packing stands in PushSignature or in a helper (one or more
+	// levels down) is immaterial to the clause: what matters is what the options hold, expressed in PushSignature's
+	// frame — the helper's parameters are replaced by the arguments bound to them on the way down (site.Tr), the same
+	// substitution the engine applies to gate labels.
+	sites := c19PackSites(w, P)
+	if len(sites) != 1 {
+		c.Bad("push/manifest", "the manifest is built from the pushed blob's descriptor: PushSignature packs one manifest (oras.PackManifest, in its own body or in a module function it calls)", w.FnPos(P), fmt.Sprintf("%d oras.PackManifest calls reachable through module calls", len(sites)))
 		return
 	}
-	c.requireOnExits("push", P, s.Exits, []Need{
+	site := sites[0]
+	UP, pk := site.Fn, site.Pack
+	needs := []Need{
 		{Name: "blob-error", What: "PushBytes err == nil", Subs: []string{pb.Err}},
-		{Name: "manifest-error", What: "manifest upload err == nil", Subs: []string{"EQ(" + desc(up) + "#err,nil)"}},
 		{Name: "pack-error", What: "oras.PackManifest err == nil", Subs: []string{"EQ(call:oras.PackManifest(", "#err,nil)"}},
-	})
-	okRet := len(s.Exits) > 0
+	}
+	if len(site.Chain) > 0 {
+		needs = append(needs, Need{Name: "manifest-error", What: "manifest upload err == nil", Subs: []string{c19ErrNil(site.Chain[0])}})
+	} else {
+		needs = append(needs, Need{Name: "manifest-error", What: "manifest upload err == nil", Subs: []string{c19ErrNil(pk)}})
+	}
+	c.requireOnExits("push", P, s.Exits, needs)
+	// the manifest descriptor returned: result 0 of the pack call, handed up unchanged by every function on the way
+	mdesc, mdOK, mdWhy := c19PackedDesc(w, site)
+	okRet := len(s.Exits) > 0 && mdOK
 	for _, e := range s.Exits {
-		if desc(e.Ret.Results[0]) != pb.Desc || desc(e.Ret.Results[1]) != res(up, 0) {
+		if desc(e.Ret.Results[0]) != pb.Desc || desc(e.Ret.Results[1]) != mdesc {
 			okRet = false
 		}
 	}
-	c.Check(okRet, "push/returns", "the descriptors returned are those of the pushed blob and the packed manifest", w.FnPos(P), "")
-	// argument mapping into UP
-	role := map[string]string{} // UP param -> role
-	for i, a := range up.Call.Args {
-		if i >= len(UP.Params) {
-			break
+	c.Check(okRet, "push/returns", "the descriptors returned are those of the pushed blob and the packed manifest", w.FnPos(P), mdWhy)
+	// what a value of the packing function is, in PushSignature's terms
+	role := func(d string) string {
+		if d == "" {
+			return ""
 		}
-		switch desc(a) {
+		switch site.Tr(d) {
 		case pn(iSub):
-			role["param:"+UP.Params[i].Name()] = "subject"
+			return "subject"
 		case pn(iAnn):
-			role["param:"+UP.Params[i].Name()] = "annotations"
+			return "annotations"
 		case pb.Desc:
-			role["param:"+UP.Params[i].Name()] = "blob"
+			return "blob"
 		}
+		return ""
 	}
 	c.SeenFn(UP.String())
-	packs := findCalls(UP, "oras.PackManifest")
-	if len(packs) != 1 {
-		c.Bad("push/pack", "the manifest is packed once with oras.PackManifest", w.FnPos(UP), fmt.Sprintf("%d calls", len(packs)))
-		return
-	}
-	pk := packs[0].(*ssa.Call)
 	ver := ""
 	if p := w.ByPath["oras.land/oras-go/v2"]; p != nil {
 		if k, ok := p.Types.Scope().Lookup("PackManifestVersion1_1").(*types.Const); ok {
@@ -768,24 +823,34 @@ func c19Push(c *Ctx) {
 	}
 	var sub, ann, lay, cfg string
 	if v := get("Subject"); v != nil {
-		sub = role[ptrTo(v)]
+		sub = role(ptrTo(v))
 	}
 	if v := get("ManifestAnnotations"); v != nil {
-		ann = role[desc(v)]
+		ann = role(desc(v))
 	}
 	if v := get("Layers"); v != nil {
-		d := desc(v)
-		if strings.HasPrefix(d, "{") && strings.HasSuffix(d, "}") && !strings.Contains(d, ",") {
-			lay = role[d[1:len(d)-1]]
+		// a slice literal over an array of length one: exactly one element (decided on the SSA value, the rendering of
+		// the element may itself contain commas)
+		if el := c19SingleElem(v); el != nil {
+			lay = role(desc(el))
 		}
 	}
+	// the config descriptor: what the options point to, followed up the call chain while it is a parameter of the
+	// function it stands in (the helper that packs may be handed the descriptor its caller obtained), down to the
+	// call that delivered it; that call's error must gate the way to the packing in the function where it stands
 	var CFG *ssa.Function
+	cfgFn, cfgGate := UP, ssa.Instruction(pk)
 	if v := get("ConfigDescriptor"); v != nil {
 		cfg = ptrTo(v)
 		if al, ok := v.(*ssa.Alloc); ok {
-			if ex, ok := onlyDirectStore(al).(*ssa.Extract); ok {
+			ov, lvl := c19UpChain(site, P, onlyDirectStore(al))
+			if ex, ok := ov.(*ssa.Extract); ok {
 				if cc, ok := ex.Tuple.(*ssa.Call); ok {
 					CFG = staticCallee(cc)
+					cfgFn = cc.Parent()
+					if lvl < len(site.Chain) {
+						cfgGate = site.Chain[lvl]
+					}
 				}
 			}
 		}
@@ -813,7 +878,7 @@ func c19Push(c *Ctx) {
 		gname = d
 	}
 	// the error of the helper gates the packing
-	g := w.Info(UP).GuardsOf(pk)
+	g := w.Info(cfgFn).GuardsOf(cfgGate)
 	_, okErr := hasLabel(g, "EQ(call:"+fnName(CFG)+"(", "#err,nil)")
 	// the global's media type
 	mtOK, immut := false, true
